@@ -27,7 +27,8 @@ func pureTableHelper(f *ssa.Function) bool {
 		return false
 	}
 	for i := 0; i < res.Len(); i++ {
-		if _, ok := res.At(i).Type().Underlying().(*types.Basic); !ok {
+		t := res.At(i).Type()
+		if _, ok := t.Underlying().(*types.Basic); !ok && !eng.IsErrorType(t) {
 			return false
 		}
 	}
